@@ -54,10 +54,18 @@ func parseConstraints(rangeStr string, ecosystem *Ecosystem) ([]*constraint, err
 
 	var constraints []*constraint
 
-	for _, part := range parts {
+	for i := 0; i < len(parts); i++ {
+		part := parts[i]
+
 		// Skip "and" keywords
 		if strings.ToLower(part) == "and" {
 			continue
+		}
+
+		// An operator may be separated from its version by whitespace ("~> 2.1", ">= 1.0.0")
+		if isOperator(part) && i+1 < len(parts) {
+			i++
+			part += parts[i]
 		}
 
 		constraint, err := parseConstraint(part, ecosystem)
@@ -75,6 +83,15 @@ func parseConstraints(rangeStr string, ecosystem *Ecosystem) ([]*constraint, err
 	}
 
 	return constraints, nil
+}
+
+// isOperator reports whether s is a bare comparison operator
+func isOperator(s string) bool {
+	switch s {
+	case ">=", "<=", ">", "<", "=", "~>":
+		return true
+	}
+	return false
 }
 
 func parseConstraint(constraintStr string, ecosystem *Ecosystem) (*constraint, error) {
